@@ -206,4 +206,10 @@ example : ISet.mk #[0, 500] #[500, 1000000000] rfl = #[(500, 1000000000)] := by 
 -- exactly touching neighbours are kept apart by trimming 1 µs from the earlier one
 example : ISet.mk #[0, 1000000] #[1000000, 2000000] rfl = #[(0, 999000), (1000000, 2000000)] := by decide +kernel
 
+/-- open finding C01-zero-length-input-touch: the inputs (0, 2 µs·10³) and the zero-length (1, 1) — after the independent sorts
+the scan sees (0, 1), (1, 2), a touch, and trims a microsecond out of the middle of the real interval -/
+theorem mk_zero_length_inside_witness :
+    ISet.mk #[0, 1000000] #[2000000, 1000000] rfl = #[(0, 999000), (1000000, 2000000)] ∧
+    ISet.mk #[0, 5000000] #[5000000, 5000000] rfl = #[(0, 4999000)] := by decide +kernel
+
 end Pyn.C01
